@@ -106,6 +106,10 @@ func cmdCheck(args []string) int {
 	os.MkdirAll(eng.workDir, 0o755)
 	defer os.RemoveAll(eng.workDir)
 
+	if err := eng.loadNoEffect(filepath.Join(*verifDir, "contracts", "noeffect.txt")); err != nil {
+		fmt.Fprintln(os.Stderr, "BROKEN:", err)
+		return 2
+	}
 	if err := eng.scanContracts(); err != nil {
 		fmt.Fprintln(os.Stderr, "BROKEN: contract files:", err)
 		return 2
